@@ -80,7 +80,10 @@ pub fn explore(ctx: &Ctx) {
             }
         }
     }
-    ctx.alphabet("sites_x_methods", json!({"jobs": jobs.len(), "lats": lats, "zones": zs, "methods": methods.iter().map(|m| format!("{:?}", m)).collect::<Vec<_>>()}));
+    for (lat, lon, gmt) in [(55.0, 0.0, 9.0), (-64.0, 120.0, -4.0), (70.0, -60.0, 6.0), (-80.0, -150.0, 2.0)] {
+        jobs.push((Site::new(lat, lon, 0.0, gmt), params_conv(Method::Mwl)));
+    }
+    ctx.alphabet("sites_x_methods", json!({"far_zone_sites": 4, "jobs": jobs.len(), "lats": lats, "zones": zs, "methods": methods.iter().map(|m| format!("{:?}", m)).collect::<Vec<_>>()}));
     ctx.alphabet("dates", json!({"range": "1600-01-01..2399-12-31", "count": all.len()}));
     par_jobs(ctx, &jobs, |(site, p), l| {
         for &d in &all {
